@@ -49,7 +49,14 @@ with cf.ThreadPoolExecutor(2) as ex:
 with open(os.path.join(HERE, "seeded", "MATRIX.md"), "w") as fh:
     fh.write("# Which check reports which seeded change\n\n(regenerate with tools/seed_matrix.py; every change was verified to pass the 266 tests and to fail its demo)\n\n"
              "| seed | property | exit | failed obligations (deductive) | bounded clauses |\n|---|---|---|---|---|\n")
-    for name, prop, det, err in rows:
+    all_rows = []
+    for name in sorted(os.listdir(os.path.join(HERE, "seeded"))):
+        mp = os.path.join(HERE, "seeded", name, "meta.json")
+        if os.path.exists(mp):
+            meta = json.load(open(mp))
+            det = meta.get("detected_by") or {}
+            all_rows.append((name, meta["breaks_property"], det if "exit" in det else None, det.get("error", "not run")))
+    for name, prop, det, err in all_rows:
         if det:
             fh.write(f"| {name} | {prop} | {det['exit']} | {'<br>'.join(det['obligations']) or '-'} | {'<br>'.join(det['bounded']) or '-'} |\n")
         else:
